@@ -111,7 +111,10 @@ Proof.
   - destruct (match assoc (e_pkg_imports e) p with
               | Some n => if String.eqb pn "" then (n, true) else (pn, has_suffix p pn)
               | None => (pn, has_suffix p pn)
-              end) as [al isp].
+              end) as [al0 isp0].
+    cbv zeta.
+    set (al := if e_unique_alias e then unused_name (taken_names e st) al0 else al0).
+    set (isp := if String.eqb al al0 then isp0 else false).
     intros H. injection H as <- <-.
     set (j := Imp p al isp true). split.
     + apply (extends_tset st j); [reflexivity|]. simpl. intros k Hk. rewrite Eg in Hk. discriminate.
@@ -776,13 +779,24 @@ Section Binding.
     - apply binding_tset; [assumption|]. unfold bound_name. simpl.
       pose proof (Hst i (tget_In _ _ _ Eg)) as Hi. unfold bound_name in Hi.
       rewrite (tget_path _ _ _ Eg) in Hi. exact Hi.
-    - destruct (assoc (e_pkg_imports e) p) as [n|] eqn:Ea.
-      + destruct (String.eqb pn "") eqn:En; cbn [snd].
-        * apply binding_tset; [assumption|]. unfold bound_name. simpl. symmetry. auto.
-        * apply binding_tset; [assumption|]. unfold bound_name. simpl.
-          destruct (has_suffix p pn); [symmetry; assumption|reflexivity].
-      + cbn [snd]. apply binding_tset; [assumption|]. unfold bound_name. simpl.
-        destruct (has_suffix p pn); [symmetry; assumption|reflexivity].
+    - assert (Hal0 : forall al0 isp0,
+                (match assoc (e_pkg_imports e) p with
+                 | Some n => if String.eqb pn "" then (n, true) else (pn, has_suffix p pn)
+                 | None => (pn, has_suffix p pn)
+                 end) = (al0, isp0) -> isp0 = true -> real p = al0).
+      { intros al0 isp0 Em Hi. destruct (assoc (e_pkg_imports e) p) as [n|] eqn:Ea.
+        - destruct (String.eqb pn "") eqn:En; injection Em as <- <-; [symmetry; auto|symmetry; assumption].
+        - injection Em as <- <-. symmetry. assumption. }
+      destruct (match assoc (e_pkg_imports e) p with
+                | Some n => if String.eqb pn "" then (n, true) else (pn, has_suffix p pn)
+                | None => (pn, has_suffix p pn)
+                end) as [al0 isp0] eqn:Em.
+      cbv zeta.
+      set (al := if e_unique_alias e then unused_name (taken_names e st) al0 else al0).
+      destruct (String.eqb al al0) eqn:Eal; cbn [snd].
+      + apply String.eqb_eq in Eal. apply binding_tset; [assumption|]. unfold bound_name. simpl.
+        destruct isp0 eqn:Ei; [|reflexivity]. rewrite Eal. apply (Hal0 _ _ eq_refl eq_refl).
+      + apply binding_tset; [assumption|]. unfold bound_name. simpl. reflexivity.
   Qed.
 
   Definition keeps_binding (t : ty) : Prop :=
